@@ -216,9 +216,10 @@ class Inference(object):
 
     def _virtual_evidence(self, virtual_evidence):
         """
-        Modifies the model to incorporate virtual evidence. For each virtual evidence
-        variable a binary variable is added as the child of the evidence variable to
-        the model. The state 0 probabilities of the child is the evidence.
+        Creates a copy of the model which incorporates the virtual evidence. For each
+        virtual evidence variable a binary variable is added as the child of the
+        evidence variable to the copy. The state 0 probabilities of the child is the
+        evidence. The model of the inference object itself isn't modified.
 
         Parameters
         ----------
@@ -228,7 +229,7 @@ class Inference(object):
 
         Returns
         -------
-        None
+        pgmpy.models.BayesianNetwork: The model with the virtual evidence variables.
 
         References
         ----------
@@ -254,7 +255,7 @@ class Inference(object):
             )
             bn.add_cpds(new_cpd)
 
-        self.__init__(bn)
+        return bn
 
     @staticmethod
     def _get_virtual_evidence_var_list(virtual_evidence):
